@@ -307,6 +307,8 @@ func runC16(c *Ctx) {
 	// follow the flags desynchronises every later entry of the batch
 	checkAttrLadders(c, "R5", true)
 
+	checkNameReplyComplete(c, "R7")
+
 	// ---------- R6 a batch of the request server fits the frame the client accepts ----------
 	// one NAME reply holds every entry ListAt delivered; its size is entries x (two copies of the name + attributes)
 	// and the client drops the connection on a frame above 256 KiB.  Bounded only if the batch size is a small
@@ -1014,4 +1016,66 @@ func checkNoPageRetained(c *Ctx, rule string) {
 		c.check(kept == "", rule, tn+": no byte slice kept", p.Pos(body.Instrs[0].Pos()), "byte slices stored in the long-lived Request are copies",
 			"Request."+kept+" of a request that stays in the handle table is the decoder's sub-slice of the receive buffer: with the allocator that page is recycled once the HANDLE reply is out, and the bytes change under the open handle")
 	}
+}
+
+// checkNameReplyComplete (C16.R7): the directory cursor has already moved past every entry handed to the NAME reply
+// (lsInc / Readdir), so the encoder must put all of them on the wire: the count it writes is len(NameAttrs), and the
+// loop over NameAttrs encodes each entry exactly once and is left early only with an error.
+func checkNameReplyComplete(c *Ctx, rule string) {
+	p := c.P
+	fn := p.Func("(*sshFxpNamePacket).marshalPacket")
+	if fn == nil {
+		c.missing(rule, "(*sshFxpNamePacket).marshalPacket")
+		return
+	}
+	// the count
+	countOK := false
+	eachInstr(fn, func(in ssa.Instruction) {
+		cc := callOf(in)
+		if cc == nil || calleeName(cc) != "marshalUint32" || len(cc.Args) != 2 {
+			return
+		}
+		t := affineOf(cc.Args[1])
+		for k, v := range t.coef {
+			if v == 1 && t.c == 0 && len(t.coef) == 1 && strings.HasPrefix(k, "len(") && strings.Contains(k, "NameAttrs") {
+				countOK = true
+			}
+		}
+	})
+	c.check(countOK, rule, "NAME reply announces every entry", p.Pos(fn.Pos()), "count = len(NameAttrs)", "the count written into the NAME reply is not the number of entries the packet was given")
+	// the loop
+	var l *loop
+	for _, cand := range loopsOf(fn) {
+		l = cand
+	}
+	if l == nil {
+		c.bad(rule, "NAME reply encodes every entry", p.Pos(fn.Pos()), "no loop over the entries")
+		return
+	}
+	isEnc := func(in ssa.Instruction) bool {
+		cc := callOf(in)
+		return cc != nil && builtinName(cc) == "append" && len(cc.Args) == 2
+	}
+	mn, mx, ok := countLoopIter(l, isEnc)
+	// leaving the loop other than at its head must be an error return
+	early := false
+	for b := range l.blocks {
+		if b == l.head {
+			continue
+		}
+		for _, s := range b.Succs {
+			if l.blocks[s] {
+				continue
+			}
+			// s is outside: every return reachable from s without re-entering must carry a non-nil error
+			if reachFromBlock(s, func(in ssa.Instruction) bool {
+				r, isR := in.(*ssa.Return)
+				return isR && isReturn(in) && isNilConst(r.Results[len(r.Results)-1])
+			}, nil) {
+				early = true
+			}
+		}
+	}
+	c.check(ok && mn == 1 && mx == 1 && !early, rule, "NAME reply encodes every entry", p.Pos(l.head.Instrs[0].Pos()), "each entry appended once; the loop is left early only with an error",
+		"the encoder can skip entries or stop before the last one and still report success: the directory cursor has already moved past them, so they are never listed")
 }
